@@ -181,6 +181,15 @@ def full_state(system, identity=True, graph=True, objs=None):
     """{slot: (kind, identity, value, id-level graph)} for every attribute of every object (bookkeeping excluded)"""
     E = env.load()
     st = {}
+
+    def unit_of(v):
+        # with identity: the very same objects, hence also expressed in the same unit as before (an in-place .to() is a visible change)
+        if not identity:
+            return ""
+        try:
+            return str(v.unit) if isinstance(v, E.ExplainableHourlyQuantities) else (str(v.value.units) if isinstance(v, E.ExplainableQuantity) else "")
+        except Exception:
+            return "?"
     for o in (objs if objs is not None else all_objects(system)):
         try:
             # the reverse look-up (who references me), as a user reads it
@@ -194,13 +203,15 @@ def full_state(system, identity=True, graph=True, objs=None):
                 st[(o.name, k)] = ("dict", id(v) if identity else 0, tuple(sorted(str(keyname(kk)) for kk in v)))
                 for kk, vv in v.items():
                     st[(o.name, k, str(keyname(kk)))] = ("val", id(vv) if identity else 0, vrepr(vv), graph_of(vv) if graph else None,
-                                                         (vv.modeling_obj_container.name if vv.modeling_obj_container is not None else None, vv.attr_name_in_mod_obj_container))
+                                                         (vv.modeling_obj_container.name if vv.modeling_obj_container is not None else None, vv.attr_name_in_mod_obj_container),
+                                                         unit_of(vv))
             elif isinstance(v, list):
                 st[(o.name, k)] = ("list", id(v) if identity else 0, tuple(x.name for x in v),
                                    v.modeling_obj_container.name if getattr(v, "modeling_obj_container", None) is not None else None)
             elif isinstance(v, E.ExplainableObject):
                 st[(o.name, k)] = ("val", id(v) if identity else 0, vrepr(v), graph_of(v) if graph else None,
-                                   (v.modeling_obj_container.name if v.modeling_obj_container is not None else None, v.attr_name_in_mod_obj_container))
+                                   (v.modeling_obj_container.name if v.modeling_obj_container is not None else None, v.attr_name_in_mod_obj_container),
+                                   unit_of(v))
             elif isinstance(v, E.ContextualModelingObjectAttribute):
                 st[(o.name, k)] = ("obj", id(v) if identity else 0, v.name)
             elif isinstance(v, E.ModelingObject):
@@ -255,6 +266,8 @@ def explain_state_diff(a, b, keys, n=6):
                         what.append("graph")
                     if x[4] != y[4]:
                         what.append(f"container {x[4]}->{y[4]}")
+                    if len(x) > 5 and x[5] != y[5]:
+                        what.append(f"unit {x[5]} -> {y[5]} (converted in place)")
                 elif x[2:] != y[2:]:
                     what.append(f"{x[2:]} -> {y[2:]}")
         out.append({"slot": list(map(str, k)), "changed": what})
